@@ -559,21 +559,21 @@ package cli
 //@   ensures result-non-nil: result != nil
 //@   ensures known-kind: isType(p, "BoolOpt") || isType(p, "BoolArg")
 //@ func (*Cmd).BoolPtr
-//@   requires recv: c != nil && c.optionsIdx != nil && c.argsIdx != nil && p != nil && into != nil
+//@   requires recv: c != nil && c.optionsIdx != nil && c.argsIdx != nil && p != nil
 //@   maypanic
 //@   ensures option: isType(p, "BoolOpt") ==> len(c.options) == old(len(c.options)) + 1 && len(c.args) == old(len(c.args)) &&
 //@       c.options[old(len(c.options))].ValueSetByUser == asType(p, "BoolOpt").SetByUser && c.options[old(len(c.options))].EnvVar == asType(p, "BoolOpt").EnvVar &&
 //@       c.options[old(len(c.options))].Name == asType(p, "BoolOpt").Name && c.options[old(len(c.options))].Desc == asType(p, "BoolOpt").Desc && c.options[old(len(c.options))].HideValue == asType(p, "BoolOpt").HideValue &&
-//@       isType(c.options[old(len(c.options))].Value, "*values.BoolValue") && asType(c.options[old(len(c.options))].Value, "*values.BoolValue") == into
+//@       isType(c.options[old(len(c.options))].Value, "*values.BoolValue") && (into != nil ==> asType(c.options[old(len(c.options))].Value, "*values.BoolValue") == into)
 //@   ensures argument: isType(p, "BoolArg") ==> len(c.args) == old(len(c.args)) + 1 && len(c.options) == old(len(c.options)) &&
 //@       c.args[old(len(c.args))].ValueSetByUser == asType(p, "BoolArg").SetByUser && c.args[old(len(c.args))].EnvVar == asType(p, "BoolArg").EnvVar &&
 //@       c.args[old(len(c.args))].Name == asType(p, "BoolArg").Name && c.args[old(len(c.args))].Desc == asType(p, "BoolArg").Desc && c.args[old(len(c.args))].HideValue == asType(p, "BoolArg").HideValue &&
-//@       isType(c.args[old(len(c.args))].Value, "*values.BoolValue") && asType(c.args[old(len(c.args))].Value, "*values.BoolValue") == into
+//@       isType(c.args[old(len(c.args))].Value, "*values.BoolValue") && (into != nil ==> asType(c.args[old(len(c.args))].Value, "*values.BoolValue") == into)
 //@   ensures option-table: isType(p, "BoolOpt") ==> (forall j int :: 0 <= j && j < len(strings_Fields(asType(p, "BoolOpt").Name)) ==>
 //@       !old(optStr(strings_Fields(asType(p, "BoolOpt").Name)[j]) in c.optionsIdx) && c.optionsIdx[optStr(strings_Fields(asType(p, "BoolOpt").Name)[j])] == c.options[old(len(c.options))])
 //@   ensures argument-table: isType(p, "BoolArg") ==> !old(asType(p, "BoolArg").Name in c.argsIdx) &&
 //@       c.argsIdx[asType(p, "BoolArg").Name] == c.args[old(len(c.args))]
-//@   ensures stored: (isType(p, "BoolOpt") && asType(p, "BoolOpt").EnvVar == "" ==> deref(into) == asType(p, "BoolOpt").Value) && (isType(p, "BoolArg") && asType(p, "BoolArg").EnvVar == "" ==> deref(into) == asType(p, "BoolArg").Value)
+//@   ensures stored: into != nil ==> (isType(p, "BoolOpt") && asType(p, "BoolOpt").EnvVar == "" ==> deref(into) == asType(p, "BoolOpt").Value) && (isType(p, "BoolArg") && asType(p, "BoolArg").EnvVar == "" ==> deref(into) == asType(p, "BoolArg").Value)
 //@   ensures known-kind: isType(p, "BoolOpt") || isType(p, "BoolArg")
 //@ func (*Cmd).String
 //@   requires recv: c != nil && c.optionsIdx != nil && c.argsIdx != nil && p != nil
@@ -594,21 +594,21 @@ package cli
 //@   ensures result-non-nil: result != nil
 //@   ensures known-kind: isType(p, "StringOpt") || isType(p, "StringArg")
 //@ func (*Cmd).StringPtr
-//@   requires recv: c != nil && c.optionsIdx != nil && c.argsIdx != nil && p != nil && into != nil
+//@   requires recv: c != nil && c.optionsIdx != nil && c.argsIdx != nil && p != nil
 //@   maypanic
 //@   ensures option: isType(p, "StringOpt") ==> len(c.options) == old(len(c.options)) + 1 && len(c.args) == old(len(c.args)) &&
 //@       c.options[old(len(c.options))].ValueSetByUser == asType(p, "StringOpt").SetByUser && c.options[old(len(c.options))].EnvVar == asType(p, "StringOpt").EnvVar &&
 //@       c.options[old(len(c.options))].Name == asType(p, "StringOpt").Name && c.options[old(len(c.options))].Desc == asType(p, "StringOpt").Desc && c.options[old(len(c.options))].HideValue == asType(p, "StringOpt").HideValue &&
-//@       isType(c.options[old(len(c.options))].Value, "*values.StringValue") && asType(c.options[old(len(c.options))].Value, "*values.StringValue") == into
+//@       isType(c.options[old(len(c.options))].Value, "*values.StringValue") && (into != nil ==> asType(c.options[old(len(c.options))].Value, "*values.StringValue") == into)
 //@   ensures argument: isType(p, "StringArg") ==> len(c.args) == old(len(c.args)) + 1 && len(c.options) == old(len(c.options)) &&
 //@       c.args[old(len(c.args))].ValueSetByUser == asType(p, "StringArg").SetByUser && c.args[old(len(c.args))].EnvVar == asType(p, "StringArg").EnvVar &&
 //@       c.args[old(len(c.args))].Name == asType(p, "StringArg").Name && c.args[old(len(c.args))].Desc == asType(p, "StringArg").Desc && c.args[old(len(c.args))].HideValue == asType(p, "StringArg").HideValue &&
-//@       isType(c.args[old(len(c.args))].Value, "*values.StringValue") && asType(c.args[old(len(c.args))].Value, "*values.StringValue") == into
+//@       isType(c.args[old(len(c.args))].Value, "*values.StringValue") && (into != nil ==> asType(c.args[old(len(c.args))].Value, "*values.StringValue") == into)
 //@   ensures option-table: isType(p, "StringOpt") ==> (forall j int :: 0 <= j && j < len(strings_Fields(asType(p, "StringOpt").Name)) ==>
 //@       !old(optStr(strings_Fields(asType(p, "StringOpt").Name)[j]) in c.optionsIdx) && c.optionsIdx[optStr(strings_Fields(asType(p, "StringOpt").Name)[j])] == c.options[old(len(c.options))])
 //@   ensures argument-table: isType(p, "StringArg") ==> !old(asType(p, "StringArg").Name in c.argsIdx) &&
 //@       c.argsIdx[asType(p, "StringArg").Name] == c.args[old(len(c.args))]
-//@   ensures stored: (isType(p, "StringOpt") && asType(p, "StringOpt").EnvVar == "" ==> deref(into) == asType(p, "StringOpt").Value) && (isType(p, "StringArg") && asType(p, "StringArg").EnvVar == "" ==> deref(into) == asType(p, "StringArg").Value)
+//@   ensures stored: into != nil ==> (isType(p, "StringOpt") && asType(p, "StringOpt").EnvVar == "" ==> deref(into) == asType(p, "StringOpt").Value) && (isType(p, "StringArg") && asType(p, "StringArg").EnvVar == "" ==> deref(into) == asType(p, "StringArg").Value)
 //@   ensures known-kind: isType(p, "StringOpt") || isType(p, "StringArg")
 //@ func (*Cmd).Int
 //@   requires recv: c != nil && c.optionsIdx != nil && c.argsIdx != nil && p != nil
@@ -629,21 +629,21 @@ package cli
 //@   ensures result-non-nil: result != nil
 //@   ensures known-kind: isType(p, "IntOpt") || isType(p, "IntArg")
 //@ func (*Cmd).IntPtr
-//@   requires recv: c != nil && c.optionsIdx != nil && c.argsIdx != nil && p != nil && into != nil
+//@   requires recv: c != nil && c.optionsIdx != nil && c.argsIdx != nil && p != nil
 //@   maypanic
 //@   ensures option: isType(p, "IntOpt") ==> len(c.options) == old(len(c.options)) + 1 && len(c.args) == old(len(c.args)) &&
 //@       c.options[old(len(c.options))].ValueSetByUser == asType(p, "IntOpt").SetByUser && c.options[old(len(c.options))].EnvVar == asType(p, "IntOpt").EnvVar &&
 //@       c.options[old(len(c.options))].Name == asType(p, "IntOpt").Name && c.options[old(len(c.options))].Desc == asType(p, "IntOpt").Desc && c.options[old(len(c.options))].HideValue == asType(p, "IntOpt").HideValue &&
-//@       isType(c.options[old(len(c.options))].Value, "*values.IntValue") && asType(c.options[old(len(c.options))].Value, "*values.IntValue") == into
+//@       isType(c.options[old(len(c.options))].Value, "*values.IntValue") && (into != nil ==> asType(c.options[old(len(c.options))].Value, "*values.IntValue") == into)
 //@   ensures argument: isType(p, "IntArg") ==> len(c.args) == old(len(c.args)) + 1 && len(c.options) == old(len(c.options)) &&
 //@       c.args[old(len(c.args))].ValueSetByUser == asType(p, "IntArg").SetByUser && c.args[old(len(c.args))].EnvVar == asType(p, "IntArg").EnvVar &&
 //@       c.args[old(len(c.args))].Name == asType(p, "IntArg").Name && c.args[old(len(c.args))].Desc == asType(p, "IntArg").Desc && c.args[old(len(c.args))].HideValue == asType(p, "IntArg").HideValue &&
-//@       isType(c.args[old(len(c.args))].Value, "*values.IntValue") && asType(c.args[old(len(c.args))].Value, "*values.IntValue") == into
+//@       isType(c.args[old(len(c.args))].Value, "*values.IntValue") && (into != nil ==> asType(c.args[old(len(c.args))].Value, "*values.IntValue") == into)
 //@   ensures option-table: isType(p, "IntOpt") ==> (forall j int :: 0 <= j && j < len(strings_Fields(asType(p, "IntOpt").Name)) ==>
 //@       !old(optStr(strings_Fields(asType(p, "IntOpt").Name)[j]) in c.optionsIdx) && c.optionsIdx[optStr(strings_Fields(asType(p, "IntOpt").Name)[j])] == c.options[old(len(c.options))])
 //@   ensures argument-table: isType(p, "IntArg") ==> !old(asType(p, "IntArg").Name in c.argsIdx) &&
 //@       c.argsIdx[asType(p, "IntArg").Name] == c.args[old(len(c.args))]
-//@   ensures stored: (isType(p, "IntOpt") && asType(p, "IntOpt").EnvVar == "" ==> deref(into) == asType(p, "IntOpt").Value) && (isType(p, "IntArg") && asType(p, "IntArg").EnvVar == "" ==> deref(into) == asType(p, "IntArg").Value)
+//@   ensures stored: into != nil ==> (isType(p, "IntOpt") && asType(p, "IntOpt").EnvVar == "" ==> deref(into) == asType(p, "IntOpt").Value) && (isType(p, "IntArg") && asType(p, "IntArg").EnvVar == "" ==> deref(into) == asType(p, "IntArg").Value)
 //@   ensures known-kind: isType(p, "IntOpt") || isType(p, "IntArg")
 //@ func (*Cmd).Float64
 //@   requires recv: c != nil && c.optionsIdx != nil && c.argsIdx != nil && p != nil
@@ -664,21 +664,21 @@ package cli
 //@   ensures result-non-nil: result != nil
 //@   ensures known-kind: isType(p, "Float64Opt") || isType(p, "Float64Arg")
 //@ func (*Cmd).Float64Ptr
-//@   requires recv: c != nil && c.optionsIdx != nil && c.argsIdx != nil && p != nil && into != nil
+//@   requires recv: c != nil && c.optionsIdx != nil && c.argsIdx != nil && p != nil
 //@   maypanic
 //@   ensures option: isType(p, "Float64Opt") ==> len(c.options) == old(len(c.options)) + 1 && len(c.args) == old(len(c.args)) &&
 //@       c.options[old(len(c.options))].ValueSetByUser == asType(p, "Float64Opt").SetByUser && c.options[old(len(c.options))].EnvVar == asType(p, "Float64Opt").EnvVar &&
 //@       c.options[old(len(c.options))].Name == asType(p, "Float64Opt").Name && c.options[old(len(c.options))].Desc == asType(p, "Float64Opt").Desc && c.options[old(len(c.options))].HideValue == asType(p, "Float64Opt").HideValue &&
-//@       isType(c.options[old(len(c.options))].Value, "*values.Float64Value") && asType(c.options[old(len(c.options))].Value, "*values.Float64Value") == into
+//@       isType(c.options[old(len(c.options))].Value, "*values.Float64Value") && (into != nil ==> asType(c.options[old(len(c.options))].Value, "*values.Float64Value") == into)
 //@   ensures argument: isType(p, "Float64Arg") ==> len(c.args) == old(len(c.args)) + 1 && len(c.options) == old(len(c.options)) &&
 //@       c.args[old(len(c.args))].ValueSetByUser == asType(p, "Float64Arg").SetByUser && c.args[old(len(c.args))].EnvVar == asType(p, "Float64Arg").EnvVar &&
 //@       c.args[old(len(c.args))].Name == asType(p, "Float64Arg").Name && c.args[old(len(c.args))].Desc == asType(p, "Float64Arg").Desc && c.args[old(len(c.args))].HideValue == asType(p, "Float64Arg").HideValue &&
-//@       isType(c.args[old(len(c.args))].Value, "*values.Float64Value") && asType(c.args[old(len(c.args))].Value, "*values.Float64Value") == into
+//@       isType(c.args[old(len(c.args))].Value, "*values.Float64Value") && (into != nil ==> asType(c.args[old(len(c.args))].Value, "*values.Float64Value") == into)
 //@   ensures option-table: isType(p, "Float64Opt") ==> (forall j int :: 0 <= j && j < len(strings_Fields(asType(p, "Float64Opt").Name)) ==>
 //@       !old(optStr(strings_Fields(asType(p, "Float64Opt").Name)[j]) in c.optionsIdx) && c.optionsIdx[optStr(strings_Fields(asType(p, "Float64Opt").Name)[j])] == c.options[old(len(c.options))])
 //@   ensures argument-table: isType(p, "Float64Arg") ==> !old(asType(p, "Float64Arg").Name in c.argsIdx) &&
 //@       c.argsIdx[asType(p, "Float64Arg").Name] == c.args[old(len(c.args))]
-//@   ensures stored: (isType(p, "Float64Opt") && asType(p, "Float64Opt").EnvVar == "" ==> deref(into) == asType(p, "Float64Opt").Value) && (isType(p, "Float64Arg") && asType(p, "Float64Arg").EnvVar == "" ==> deref(into) == asType(p, "Float64Arg").Value)
+//@   ensures stored: into != nil ==> (isType(p, "Float64Opt") && asType(p, "Float64Opt").EnvVar == "" ==> deref(into) == asType(p, "Float64Opt").Value) && (isType(p, "Float64Arg") && asType(p, "Float64Arg").EnvVar == "" ==> deref(into) == asType(p, "Float64Arg").Value)
 //@   ensures known-kind: isType(p, "Float64Opt") || isType(p, "Float64Arg")
 //@ func (*Cmd).Strings
 //@   requires recv: c != nil && c.optionsIdx != nil && c.argsIdx != nil && p != nil
@@ -699,21 +699,21 @@ package cli
 //@   ensures result-non-nil: result != nil
 //@   ensures known-kind: isType(p, "StringsOpt") || isType(p, "StringsArg")
 //@ func (*Cmd).StringsPtr
-//@   requires recv: c != nil && c.optionsIdx != nil && c.argsIdx != nil && p != nil && into != nil
+//@   requires recv: c != nil && c.optionsIdx != nil && c.argsIdx != nil && p != nil
 //@   maypanic
 //@   ensures option: isType(p, "StringsOpt") ==> len(c.options) == old(len(c.options)) + 1 && len(c.args) == old(len(c.args)) &&
 //@       c.options[old(len(c.options))].ValueSetByUser == asType(p, "StringsOpt").SetByUser && c.options[old(len(c.options))].EnvVar == asType(p, "StringsOpt").EnvVar &&
 //@       c.options[old(len(c.options))].Name == asType(p, "StringsOpt").Name && c.options[old(len(c.options))].Desc == asType(p, "StringsOpt").Desc && c.options[old(len(c.options))].HideValue == asType(p, "StringsOpt").HideValue &&
-//@       isType(c.options[old(len(c.options))].Value, "*values.StringsValue") && asType(c.options[old(len(c.options))].Value, "*values.StringsValue") == into
+//@       isType(c.options[old(len(c.options))].Value, "*values.StringsValue") && (into != nil ==> asType(c.options[old(len(c.options))].Value, "*values.StringsValue") == into)
 //@   ensures argument: isType(p, "StringsArg") ==> len(c.args) == old(len(c.args)) + 1 && len(c.options) == old(len(c.options)) &&
 //@       c.args[old(len(c.args))].ValueSetByUser == asType(p, "StringsArg").SetByUser && c.args[old(len(c.args))].EnvVar == asType(p, "StringsArg").EnvVar &&
 //@       c.args[old(len(c.args))].Name == asType(p, "StringsArg").Name && c.args[old(len(c.args))].Desc == asType(p, "StringsArg").Desc && c.args[old(len(c.args))].HideValue == asType(p, "StringsArg").HideValue &&
-//@       isType(c.args[old(len(c.args))].Value, "*values.StringsValue") && asType(c.args[old(len(c.args))].Value, "*values.StringsValue") == into
+//@       isType(c.args[old(len(c.args))].Value, "*values.StringsValue") && (into != nil ==> asType(c.args[old(len(c.args))].Value, "*values.StringsValue") == into)
 //@   ensures option-table: isType(p, "StringsOpt") ==> (forall j int :: 0 <= j && j < len(strings_Fields(asType(p, "StringsOpt").Name)) ==>
 //@       !old(optStr(strings_Fields(asType(p, "StringsOpt").Name)[j]) in c.optionsIdx) && c.optionsIdx[optStr(strings_Fields(asType(p, "StringsOpt").Name)[j])] == c.options[old(len(c.options))])
 //@   ensures argument-table: isType(p, "StringsArg") ==> !old(asType(p, "StringsArg").Name in c.argsIdx) &&
 //@       c.argsIdx[asType(p, "StringsArg").Name] == c.args[old(len(c.args))]
-//@   ensures stored: (isType(p, "StringsOpt") && asType(p, "StringsOpt").EnvVar == "" ==> deref(into) == asType(p, "StringsOpt").Value) && (isType(p, "StringsArg") && asType(p, "StringsArg").EnvVar == "" ==> deref(into) == asType(p, "StringsArg").Value)
+//@   ensures stored: into != nil ==> (isType(p, "StringsOpt") && asType(p, "StringsOpt").EnvVar == "" ==> deref(into) == asType(p, "StringsOpt").Value) && (isType(p, "StringsArg") && asType(p, "StringsArg").EnvVar == "" ==> deref(into) == asType(p, "StringsArg").Value)
 //@   ensures known-kind: isType(p, "StringsOpt") || isType(p, "StringsArg")
 //@ func (*Cmd).Ints
 //@   requires recv: c != nil && c.optionsIdx != nil && c.argsIdx != nil && p != nil
@@ -734,21 +734,21 @@ package cli
 //@   ensures result-non-nil: result != nil
 //@   ensures known-kind: isType(p, "IntsOpt") || isType(p, "IntsArg")
 //@ func (*Cmd).IntsPtr
-//@   requires recv: c != nil && c.optionsIdx != nil && c.argsIdx != nil && p != nil && into != nil
+//@   requires recv: c != nil && c.optionsIdx != nil && c.argsIdx != nil && p != nil
 //@   maypanic
 //@   ensures option: isType(p, "IntsOpt") ==> len(c.options) == old(len(c.options)) + 1 && len(c.args) == old(len(c.args)) &&
 //@       c.options[old(len(c.options))].ValueSetByUser == asType(p, "IntsOpt").SetByUser && c.options[old(len(c.options))].EnvVar == asType(p, "IntsOpt").EnvVar &&
 //@       c.options[old(len(c.options))].Name == asType(p, "IntsOpt").Name && c.options[old(len(c.options))].Desc == asType(p, "IntsOpt").Desc && c.options[old(len(c.options))].HideValue == asType(p, "IntsOpt").HideValue &&
-//@       isType(c.options[old(len(c.options))].Value, "*values.IntsValue") && asType(c.options[old(len(c.options))].Value, "*values.IntsValue") == into
+//@       isType(c.options[old(len(c.options))].Value, "*values.IntsValue") && (into != nil ==> asType(c.options[old(len(c.options))].Value, "*values.IntsValue") == into)
 //@   ensures argument: isType(p, "IntsArg") ==> len(c.args) == old(len(c.args)) + 1 && len(c.options) == old(len(c.options)) &&
 //@       c.args[old(len(c.args))].ValueSetByUser == asType(p, "IntsArg").SetByUser && c.args[old(len(c.args))].EnvVar == asType(p, "IntsArg").EnvVar &&
 //@       c.args[old(len(c.args))].Name == asType(p, "IntsArg").Name && c.args[old(len(c.args))].Desc == asType(p, "IntsArg").Desc && c.args[old(len(c.args))].HideValue == asType(p, "IntsArg").HideValue &&
-//@       isType(c.args[old(len(c.args))].Value, "*values.IntsValue") && asType(c.args[old(len(c.args))].Value, "*values.IntsValue") == into
+//@       isType(c.args[old(len(c.args))].Value, "*values.IntsValue") && (into != nil ==> asType(c.args[old(len(c.args))].Value, "*values.IntsValue") == into)
 //@   ensures option-table: isType(p, "IntsOpt") ==> (forall j int :: 0 <= j && j < len(strings_Fields(asType(p, "IntsOpt").Name)) ==>
 //@       !old(optStr(strings_Fields(asType(p, "IntsOpt").Name)[j]) in c.optionsIdx) && c.optionsIdx[optStr(strings_Fields(asType(p, "IntsOpt").Name)[j])] == c.options[old(len(c.options))])
 //@   ensures argument-table: isType(p, "IntsArg") ==> !old(asType(p, "IntsArg").Name in c.argsIdx) &&
 //@       c.argsIdx[asType(p, "IntsArg").Name] == c.args[old(len(c.args))]
-//@   ensures stored: (isType(p, "IntsOpt") && asType(p, "IntsOpt").EnvVar == "" ==> deref(into) == asType(p, "IntsOpt").Value) && (isType(p, "IntsArg") && asType(p, "IntsArg").EnvVar == "" ==> deref(into) == asType(p, "IntsArg").Value)
+//@   ensures stored: into != nil ==> (isType(p, "IntsOpt") && asType(p, "IntsOpt").EnvVar == "" ==> deref(into) == asType(p, "IntsOpt").Value) && (isType(p, "IntsArg") && asType(p, "IntsArg").EnvVar == "" ==> deref(into) == asType(p, "IntsArg").Value)
 //@   ensures known-kind: isType(p, "IntsOpt") || isType(p, "IntsArg")
 //@ func (*Cmd).Floats64
 //@   requires recv: c != nil && c.optionsIdx != nil && c.argsIdx != nil && p != nil
@@ -769,21 +769,21 @@ package cli
 //@   ensures result-non-nil: result != nil
 //@   ensures known-kind: isType(p, "Floats64Opt") || isType(p, "Floats64Arg")
 //@ func (*Cmd).Floats64Ptr
-//@   requires recv: c != nil && c.optionsIdx != nil && c.argsIdx != nil && p != nil && into != nil
+//@   requires recv: c != nil && c.optionsIdx != nil && c.argsIdx != nil && p != nil
 //@   maypanic
 //@   ensures option: isType(p, "Floats64Opt") ==> len(c.options) == old(len(c.options)) + 1 && len(c.args) == old(len(c.args)) &&
 //@       c.options[old(len(c.options))].ValueSetByUser == asType(p, "Floats64Opt").SetByUser && c.options[old(len(c.options))].EnvVar == asType(p, "Floats64Opt").EnvVar &&
 //@       c.options[old(len(c.options))].Name == asType(p, "Floats64Opt").Name && c.options[old(len(c.options))].Desc == asType(p, "Floats64Opt").Desc && c.options[old(len(c.options))].HideValue == asType(p, "Floats64Opt").HideValue &&
-//@       isType(c.options[old(len(c.options))].Value, "*values.Floats64Value") && asType(c.options[old(len(c.options))].Value, "*values.Floats64Value") == into
+//@       isType(c.options[old(len(c.options))].Value, "*values.Floats64Value") && (into != nil ==> asType(c.options[old(len(c.options))].Value, "*values.Floats64Value") == into)
 //@   ensures argument: isType(p, "Floats64Arg") ==> len(c.args) == old(len(c.args)) + 1 && len(c.options) == old(len(c.options)) &&
 //@       c.args[old(len(c.args))].ValueSetByUser == asType(p, "Floats64Arg").SetByUser && c.args[old(len(c.args))].EnvVar == asType(p, "Floats64Arg").EnvVar &&
 //@       c.args[old(len(c.args))].Name == asType(p, "Floats64Arg").Name && c.args[old(len(c.args))].Desc == asType(p, "Floats64Arg").Desc && c.args[old(len(c.args))].HideValue == asType(p, "Floats64Arg").HideValue &&
-//@       isType(c.args[old(len(c.args))].Value, "*values.Floats64Value") && asType(c.args[old(len(c.args))].Value, "*values.Floats64Value") == into
+//@       isType(c.args[old(len(c.args))].Value, "*values.Floats64Value") && (into != nil ==> asType(c.args[old(len(c.args))].Value, "*values.Floats64Value") == into)
 //@   ensures option-table: isType(p, "Floats64Opt") ==> (forall j int :: 0 <= j && j < len(strings_Fields(asType(p, "Floats64Opt").Name)) ==>
 //@       !old(optStr(strings_Fields(asType(p, "Floats64Opt").Name)[j]) in c.optionsIdx) && c.optionsIdx[optStr(strings_Fields(asType(p, "Floats64Opt").Name)[j])] == c.options[old(len(c.options))])
 //@   ensures argument-table: isType(p, "Floats64Arg") ==> !old(asType(p, "Floats64Arg").Name in c.argsIdx) &&
 //@       c.argsIdx[asType(p, "Floats64Arg").Name] == c.args[old(len(c.args))]
-//@   ensures stored: (isType(p, "Floats64Opt") && asType(p, "Floats64Opt").EnvVar == "" ==> deref(into) == asType(p, "Floats64Opt").Value) && (isType(p, "Floats64Arg") && asType(p, "Floats64Arg").EnvVar == "" ==> deref(into) == asType(p, "Floats64Arg").Value)
+//@   ensures stored: into != nil ==> (isType(p, "Floats64Opt") && asType(p, "Floats64Opt").EnvVar == "" ==> deref(into) == asType(p, "Floats64Opt").Value) && (isType(p, "Floats64Arg") && asType(p, "Floats64Arg").EnvVar == "" ==> deref(into) == asType(p, "Floats64Arg").Value)
 //@   ensures known-kind: isType(p, "Floats64Opt") || isType(p, "Floats64Arg")
 
 // --- convenience declarations (C18, C17, C06): XOpt/XArg(name, value, desc) declare exactly that name, default and
@@ -795,12 +795,11 @@ package cli
 //@       !c.options[old(len(c.options))].HideValue && c.options[old(len(c.options))].ValueSetByUser == nil && isType(c.options[old(len(c.options))].Value, "*values.BoolValue")
 //@   ensures default: result != nil && deref(result) == value && asType(c.options[old(len(c.options))].Value, "*values.BoolValue") == result
 //@ func (*Cmd).BoolOptPtr
-//@   requires into: into != nil
 //@   requires recv: c != nil && c.optionsIdx != nil && c.argsIdx != nil
 //@   maypanic
 //@   ensures declared: len(c.options) == old(len(c.options)) + 1 && c.options[old(len(c.options))].Name == name && c.options[old(len(c.options))].Desc == desc && c.options[old(len(c.options))].EnvVar == "" &&
 //@       !c.options[old(len(c.options))].HideValue && c.options[old(len(c.options))].ValueSetByUser == nil && isType(c.options[old(len(c.options))].Value, "*values.BoolValue")
-//@   ensures default: deref(into) == value && asType(c.options[old(len(c.options))].Value, "*values.BoolValue") == into
+//@   ensures default: into != nil ==> deref(into) == value && asType(c.options[old(len(c.options))].Value, "*values.BoolValue") == into
 //@ func (*Cmd).BoolArg
 //@   requires recv: c != nil && c.optionsIdx != nil && c.argsIdx != nil
 //@   maypanic
@@ -808,12 +807,11 @@ package cli
 //@       !c.args[old(len(c.args))].HideValue && c.args[old(len(c.args))].ValueSetByUser == nil && isType(c.args[old(len(c.args))].Value, "*values.BoolValue")
 //@   ensures default: result != nil && deref(result) == value && asType(c.args[old(len(c.args))].Value, "*values.BoolValue") == result
 //@ func (*Cmd).BoolArgPtr
-//@   requires into: into != nil
 //@   requires recv: c != nil && c.optionsIdx != nil && c.argsIdx != nil
 //@   maypanic
 //@   ensures declared: len(c.args) == old(len(c.args)) + 1 && c.args[old(len(c.args))].Name == name && c.args[old(len(c.args))].Desc == desc && c.args[old(len(c.args))].EnvVar == "" &&
 //@       !c.args[old(len(c.args))].HideValue && c.args[old(len(c.args))].ValueSetByUser == nil && isType(c.args[old(len(c.args))].Value, "*values.BoolValue")
-//@   ensures default: deref(into) == value && asType(c.args[old(len(c.args))].Value, "*values.BoolValue") == into
+//@   ensures default: into != nil ==> deref(into) == value && asType(c.args[old(len(c.args))].Value, "*values.BoolValue") == into
 //@ func (*Cmd).StringOpt
 //@   requires recv: c != nil && c.optionsIdx != nil && c.argsIdx != nil
 //@   maypanic
@@ -821,12 +819,11 @@ package cli
 //@       !c.options[old(len(c.options))].HideValue && c.options[old(len(c.options))].ValueSetByUser == nil && isType(c.options[old(len(c.options))].Value, "*values.StringValue")
 //@   ensures default: result != nil && deref(result) == value && asType(c.options[old(len(c.options))].Value, "*values.StringValue") == result
 //@ func (*Cmd).StringOptPtr
-//@   requires into: into != nil
 //@   requires recv: c != nil && c.optionsIdx != nil && c.argsIdx != nil
 //@   maypanic
 //@   ensures declared: len(c.options) == old(len(c.options)) + 1 && c.options[old(len(c.options))].Name == name && c.options[old(len(c.options))].Desc == desc && c.options[old(len(c.options))].EnvVar == "" &&
 //@       !c.options[old(len(c.options))].HideValue && c.options[old(len(c.options))].ValueSetByUser == nil && isType(c.options[old(len(c.options))].Value, "*values.StringValue")
-//@   ensures default: deref(into) == value && asType(c.options[old(len(c.options))].Value, "*values.StringValue") == into
+//@   ensures default: into != nil ==> deref(into) == value && asType(c.options[old(len(c.options))].Value, "*values.StringValue") == into
 //@ func (*Cmd).StringArg
 //@   requires recv: c != nil && c.optionsIdx != nil && c.argsIdx != nil
 //@   maypanic
@@ -834,12 +831,11 @@ package cli
 //@       !c.args[old(len(c.args))].HideValue && c.args[old(len(c.args))].ValueSetByUser == nil && isType(c.args[old(len(c.args))].Value, "*values.StringValue")
 //@   ensures default: result != nil && deref(result) == value && asType(c.args[old(len(c.args))].Value, "*values.StringValue") == result
 //@ func (*Cmd).StringArgPtr
-//@   requires into: into != nil
 //@   requires recv: c != nil && c.optionsIdx != nil && c.argsIdx != nil
 //@   maypanic
 //@   ensures declared: len(c.args) == old(len(c.args)) + 1 && c.args[old(len(c.args))].Name == name && c.args[old(len(c.args))].Desc == desc && c.args[old(len(c.args))].EnvVar == "" &&
 //@       !c.args[old(len(c.args))].HideValue && c.args[old(len(c.args))].ValueSetByUser == nil && isType(c.args[old(len(c.args))].Value, "*values.StringValue")
-//@   ensures default: deref(into) == value && asType(c.args[old(len(c.args))].Value, "*values.StringValue") == into
+//@   ensures default: into != nil ==> deref(into) == value && asType(c.args[old(len(c.args))].Value, "*values.StringValue") == into
 //@ func (*Cmd).IntOpt
 //@   requires recv: c != nil && c.optionsIdx != nil && c.argsIdx != nil
 //@   maypanic
@@ -847,12 +843,11 @@ package cli
 //@       !c.options[old(len(c.options))].HideValue && c.options[old(len(c.options))].ValueSetByUser == nil && isType(c.options[old(len(c.options))].Value, "*values.IntValue")
 //@   ensures default: result != nil && deref(result) == value && asType(c.options[old(len(c.options))].Value, "*values.IntValue") == result
 //@ func (*Cmd).IntOptPtr
-//@   requires into: into != nil
 //@   requires recv: c != nil && c.optionsIdx != nil && c.argsIdx != nil
 //@   maypanic
 //@   ensures declared: len(c.options) == old(len(c.options)) + 1 && c.options[old(len(c.options))].Name == name && c.options[old(len(c.options))].Desc == desc && c.options[old(len(c.options))].EnvVar == "" &&
 //@       !c.options[old(len(c.options))].HideValue && c.options[old(len(c.options))].ValueSetByUser == nil && isType(c.options[old(len(c.options))].Value, "*values.IntValue")
-//@   ensures default: deref(into) == value && asType(c.options[old(len(c.options))].Value, "*values.IntValue") == into
+//@   ensures default: into != nil ==> deref(into) == value && asType(c.options[old(len(c.options))].Value, "*values.IntValue") == into
 //@ func (*Cmd).IntArg
 //@   requires recv: c != nil && c.optionsIdx != nil && c.argsIdx != nil
 //@   maypanic
@@ -860,12 +855,11 @@ package cli
 //@       !c.args[old(len(c.args))].HideValue && c.args[old(len(c.args))].ValueSetByUser == nil && isType(c.args[old(len(c.args))].Value, "*values.IntValue")
 //@   ensures default: result != nil && deref(result) == value && asType(c.args[old(len(c.args))].Value, "*values.IntValue") == result
 //@ func (*Cmd).IntArgPtr
-//@   requires into: into != nil
 //@   requires recv: c != nil && c.optionsIdx != nil && c.argsIdx != nil
 //@   maypanic
 //@   ensures declared: len(c.args) == old(len(c.args)) + 1 && c.args[old(len(c.args))].Name == name && c.args[old(len(c.args))].Desc == desc && c.args[old(len(c.args))].EnvVar == "" &&
 //@       !c.args[old(len(c.args))].HideValue && c.args[old(len(c.args))].ValueSetByUser == nil && isType(c.args[old(len(c.args))].Value, "*values.IntValue")
-//@   ensures default: deref(into) == value && asType(c.args[old(len(c.args))].Value, "*values.IntValue") == into
+//@   ensures default: into != nil ==> deref(into) == value && asType(c.args[old(len(c.args))].Value, "*values.IntValue") == into
 //@ func (*Cmd).Float64Opt
 //@   requires recv: c != nil && c.optionsIdx != nil && c.argsIdx != nil
 //@   maypanic
@@ -873,12 +867,11 @@ package cli
 //@       !c.options[old(len(c.options))].HideValue && c.options[old(len(c.options))].ValueSetByUser == nil && isType(c.options[old(len(c.options))].Value, "*values.Float64Value")
 //@   ensures default: result != nil && deref(result) == value && asType(c.options[old(len(c.options))].Value, "*values.Float64Value") == result
 //@ func (*Cmd).Float64OptPtr
-//@   requires into: into != nil
 //@   requires recv: c != nil && c.optionsIdx != nil && c.argsIdx != nil
 //@   maypanic
 //@   ensures declared: len(c.options) == old(len(c.options)) + 1 && c.options[old(len(c.options))].Name == name && c.options[old(len(c.options))].Desc == desc && c.options[old(len(c.options))].EnvVar == "" &&
 //@       !c.options[old(len(c.options))].HideValue && c.options[old(len(c.options))].ValueSetByUser == nil && isType(c.options[old(len(c.options))].Value, "*values.Float64Value")
-//@   ensures default: deref(into) == value && asType(c.options[old(len(c.options))].Value, "*values.Float64Value") == into
+//@   ensures default: into != nil ==> deref(into) == value && asType(c.options[old(len(c.options))].Value, "*values.Float64Value") == into
 //@ func (*Cmd).Float64Arg
 //@   requires recv: c != nil && c.optionsIdx != nil && c.argsIdx != nil
 //@   maypanic
@@ -886,12 +879,11 @@ package cli
 //@       !c.args[old(len(c.args))].HideValue && c.args[old(len(c.args))].ValueSetByUser == nil && isType(c.args[old(len(c.args))].Value, "*values.Float64Value")
 //@   ensures default: result != nil && deref(result) == value && asType(c.args[old(len(c.args))].Value, "*values.Float64Value") == result
 //@ func (*Cmd).Float64ArgPtr
-//@   requires into: into != nil
 //@   requires recv: c != nil && c.optionsIdx != nil && c.argsIdx != nil
 //@   maypanic
 //@   ensures declared: len(c.args) == old(len(c.args)) + 1 && c.args[old(len(c.args))].Name == name && c.args[old(len(c.args))].Desc == desc && c.args[old(len(c.args))].EnvVar == "" &&
 //@       !c.args[old(len(c.args))].HideValue && c.args[old(len(c.args))].ValueSetByUser == nil && isType(c.args[old(len(c.args))].Value, "*values.Float64Value")
-//@   ensures default: deref(into) == value && asType(c.args[old(len(c.args))].Value, "*values.Float64Value") == into
+//@   ensures default: into != nil ==> deref(into) == value && asType(c.args[old(len(c.args))].Value, "*values.Float64Value") == into
 //@ func (*Cmd).StringsOpt
 //@   requires recv: c != nil && c.optionsIdx != nil && c.argsIdx != nil
 //@   maypanic
@@ -899,12 +891,11 @@ package cli
 //@       !c.options[old(len(c.options))].HideValue && c.options[old(len(c.options))].ValueSetByUser == nil && isType(c.options[old(len(c.options))].Value, "*values.StringsValue")
 //@   ensures default: result != nil && deref(result) == value && asType(c.options[old(len(c.options))].Value, "*values.StringsValue") == result
 //@ func (*Cmd).StringsOptPtr
-//@   requires into: into != nil
 //@   requires recv: c != nil && c.optionsIdx != nil && c.argsIdx != nil
 //@   maypanic
 //@   ensures declared: len(c.options) == old(len(c.options)) + 1 && c.options[old(len(c.options))].Name == name && c.options[old(len(c.options))].Desc == desc && c.options[old(len(c.options))].EnvVar == "" &&
 //@       !c.options[old(len(c.options))].HideValue && c.options[old(len(c.options))].ValueSetByUser == nil && isType(c.options[old(len(c.options))].Value, "*values.StringsValue")
-//@   ensures default: deref(into) == value && asType(c.options[old(len(c.options))].Value, "*values.StringsValue") == into
+//@   ensures default: into != nil ==> deref(into) == value && asType(c.options[old(len(c.options))].Value, "*values.StringsValue") == into
 //@ func (*Cmd).StringsArg
 //@   requires recv: c != nil && c.optionsIdx != nil && c.argsIdx != nil
 //@   maypanic
@@ -912,12 +903,11 @@ package cli
 //@       !c.args[old(len(c.args))].HideValue && c.args[old(len(c.args))].ValueSetByUser == nil && isType(c.args[old(len(c.args))].Value, "*values.StringsValue")
 //@   ensures default: result != nil && deref(result) == value && asType(c.args[old(len(c.args))].Value, "*values.StringsValue") == result
 //@ func (*Cmd).StringsArgPtr
-//@   requires into: into != nil
 //@   requires recv: c != nil && c.optionsIdx != nil && c.argsIdx != nil
 //@   maypanic
 //@   ensures declared: len(c.args) == old(len(c.args)) + 1 && c.args[old(len(c.args))].Name == name && c.args[old(len(c.args))].Desc == desc && c.args[old(len(c.args))].EnvVar == "" &&
 //@       !c.args[old(len(c.args))].HideValue && c.args[old(len(c.args))].ValueSetByUser == nil && isType(c.args[old(len(c.args))].Value, "*values.StringsValue")
-//@   ensures default: deref(into) == value && asType(c.args[old(len(c.args))].Value, "*values.StringsValue") == into
+//@   ensures default: into != nil ==> deref(into) == value && asType(c.args[old(len(c.args))].Value, "*values.StringsValue") == into
 //@ func (*Cmd).IntsOpt
 //@   requires recv: c != nil && c.optionsIdx != nil && c.argsIdx != nil
 //@   maypanic
@@ -925,12 +915,11 @@ package cli
 //@       !c.options[old(len(c.options))].HideValue && c.options[old(len(c.options))].ValueSetByUser == nil && isType(c.options[old(len(c.options))].Value, "*values.IntsValue")
 //@   ensures default: result != nil && deref(result) == value && asType(c.options[old(len(c.options))].Value, "*values.IntsValue") == result
 //@ func (*Cmd).IntsOptPtr
-//@   requires into: into != nil
 //@   requires recv: c != nil && c.optionsIdx != nil && c.argsIdx != nil
 //@   maypanic
 //@   ensures declared: len(c.options) == old(len(c.options)) + 1 && c.options[old(len(c.options))].Name == name && c.options[old(len(c.options))].Desc == desc && c.options[old(len(c.options))].EnvVar == "" &&
 //@       !c.options[old(len(c.options))].HideValue && c.options[old(len(c.options))].ValueSetByUser == nil && isType(c.options[old(len(c.options))].Value, "*values.IntsValue")
-//@   ensures default: deref(into) == value && asType(c.options[old(len(c.options))].Value, "*values.IntsValue") == into
+//@   ensures default: into != nil ==> deref(into) == value && asType(c.options[old(len(c.options))].Value, "*values.IntsValue") == into
 //@ func (*Cmd).IntsArg
 //@   requires recv: c != nil && c.optionsIdx != nil && c.argsIdx != nil
 //@   maypanic
@@ -938,12 +927,11 @@ package cli
 //@       !c.args[old(len(c.args))].HideValue && c.args[old(len(c.args))].ValueSetByUser == nil && isType(c.args[old(len(c.args))].Value, "*values.IntsValue")
 //@   ensures default: result != nil && deref(result) == value && asType(c.args[old(len(c.args))].Value, "*values.IntsValue") == result
 //@ func (*Cmd).IntsArgPtr
-//@   requires into: into != nil
 //@   requires recv: c != nil && c.optionsIdx != nil && c.argsIdx != nil
 //@   maypanic
 //@   ensures declared: len(c.args) == old(len(c.args)) + 1 && c.args[old(len(c.args))].Name == name && c.args[old(len(c.args))].Desc == desc && c.args[old(len(c.args))].EnvVar == "" &&
 //@       !c.args[old(len(c.args))].HideValue && c.args[old(len(c.args))].ValueSetByUser == nil && isType(c.args[old(len(c.args))].Value, "*values.IntsValue")
-//@   ensures default: deref(into) == value && asType(c.args[old(len(c.args))].Value, "*values.IntsValue") == into
+//@   ensures default: into != nil ==> deref(into) == value && asType(c.args[old(len(c.args))].Value, "*values.IntsValue") == into
 //@ func (*Cmd).Floats64Opt
 //@   requires recv: c != nil && c.optionsIdx != nil && c.argsIdx != nil
 //@   maypanic
@@ -951,12 +939,11 @@ package cli
 //@       !c.options[old(len(c.options))].HideValue && c.options[old(len(c.options))].ValueSetByUser == nil && isType(c.options[old(len(c.options))].Value, "*values.Floats64Value")
 //@   ensures default: result != nil && deref(result) == value && asType(c.options[old(len(c.options))].Value, "*values.Floats64Value") == result
 //@ func (*Cmd).Floats64OptPtr
-//@   requires into: into != nil
 //@   requires recv: c != nil && c.optionsIdx != nil && c.argsIdx != nil
 //@   maypanic
 //@   ensures declared: len(c.options) == old(len(c.options)) + 1 && c.options[old(len(c.options))].Name == name && c.options[old(len(c.options))].Desc == desc && c.options[old(len(c.options))].EnvVar == "" &&
 //@       !c.options[old(len(c.options))].HideValue && c.options[old(len(c.options))].ValueSetByUser == nil && isType(c.options[old(len(c.options))].Value, "*values.Floats64Value")
-//@   ensures default: deref(into) == value && asType(c.options[old(len(c.options))].Value, "*values.Floats64Value") == into
+//@   ensures default: into != nil ==> deref(into) == value && asType(c.options[old(len(c.options))].Value, "*values.Floats64Value") == into
 //@ func (*Cmd).Floats64Arg
 //@   requires recv: c != nil && c.optionsIdx != nil && c.argsIdx != nil
 //@   maypanic
@@ -964,12 +951,11 @@ package cli
 //@       !c.args[old(len(c.args))].HideValue && c.args[old(len(c.args))].ValueSetByUser == nil && isType(c.args[old(len(c.args))].Value, "*values.Floats64Value")
 //@   ensures default: result != nil && deref(result) == value && asType(c.args[old(len(c.args))].Value, "*values.Floats64Value") == result
 //@ func (*Cmd).Floats64ArgPtr
-//@   requires into: into != nil
 //@   requires recv: c != nil && c.optionsIdx != nil && c.argsIdx != nil
 //@   maypanic
 //@   ensures declared: len(c.args) == old(len(c.args)) + 1 && c.args[old(len(c.args))].Name == name && c.args[old(len(c.args))].Desc == desc && c.args[old(len(c.args))].EnvVar == "" &&
 //@       !c.args[old(len(c.args))].HideValue && c.args[old(len(c.args))].ValueSetByUser == nil && isType(c.args[old(len(c.args))].Value, "*values.Floats64Value")
-//@   ensures default: deref(into) == value && asType(c.args[old(len(c.args))].Value, "*values.Floats64Value") == into
+//@   ensures default: into != nil ==> deref(into) == value && asType(c.args[old(len(c.args))].Value, "*values.Floats64Value") == into
 
 // user-defined values (C19): Var/VarOpt/VarArg declare the container around the caller's value, untouched
 //@ func VarParam.value()
